@@ -21,6 +21,12 @@ SCRATCH_B = ['#\n', '##\n', '######\n', '# t #\n', '```\ncode\n```\n', '``` info
 SCRATCH_A = ['# one #\n', '###### six ######\n', '## two ##\n', 'Setext\n===\n', '<!-- comment -->\n\npara\n', '<pre>x</pre>\n\npara\n', '<?pi?>\n\npara\n',
              '<!DOCTYPE x>\n\npara\n', '<![CDATA[x]]>\n\npara\n', '``` py\ncode\n```\n\npara\n', '~~~~ info\nx\n~~~~\n\n---\n', '> quote\n', '>\n', '> > deep\n',
              'a | b\n--|--\n', 'a | b\n:-:|--:\nc | d\n', '***\n', 'para\nmore\n', '- a\n\npara\n', '> ```\n> x\n\npara\n', '> # h #\n']
+# lists whose looseness is settled by List.read / ListItem.read through the items' parse buffers: empty items, blank lines between
+# and after items, nested lists - on both sides of the boundary
+LIST_SHAPES = ['-\n\n- b\n', '- a\n-\n\n- c\n', '- a\n\n- b\n', '1.\n\n2. b\n', '- a\n-\n', '- x\n-\n\nend\n', '-\n', '- a\n- b\n', '- a\n  - b\n\n  c\n',
+               '1. a\n2.\n\n3. c\n', '- a\n\n  b\n- c\n', '- a\n  - b\n\n- c\n', '*\n*\n\n* c\n', '- a\n\n\n- b\n', '> -\n>\n> - b\n', '- > a\n-\n\n- c\n']
+SCRATCH_B = SCRATCH_B + LIST_SHAPES
+SCRATCH_A = SCRATCH_A + [l + '\npara\n' for l in LIST_SHAPES] + ['> ' + l.replace('\n', '\n> ')[:-2] for l in LIST_SHAPES[:6]]
 
 
 def parse(text, ts):
@@ -83,7 +89,7 @@ def source_text(rng, gen):
     if r < 0.35:
         return 'spec', rng.choice(workloads.spec())['markdown']
     if r < 0.50 and gen is not None:
-        return 'generated', gen.generate(rng, profile='full', max_blocks=4).text
+        return 'generated', gen.generate(rng, profile='full', max_blocks=4, empty_last_item=True, para_after_closed_container=True).text  # (no tree oracle here)
     kind, text = workloads.mixed(rng, 120)
     return kind, workloads.clean_lf(text)
 
